@@ -128,6 +128,15 @@ def run_tlc(module, cfg, name, workers=8, timeout=600, simulate=None, env=None,
     out = p.stdout
     if p.returncode == 124:
         r.error = "timeout after %ss" % timeout
+        if simulate:
+            # random simulation is bounded by time: report what was checked
+            ms = re.findall(r"Progress: (\d+) states checked, (\d+) traces generated", out)
+            if ms and not re.search(r"is violated|Deadlock reached|Error:", out):
+                r.generated = r.distinct = int(ms[-1][0])
+                r.traces = int(ms[-1][1])
+                r.error = None
+                r.ok = True
+                r.simulated = True
     m = re.search(r"(\d+) states generated, (\d+) distinct states found", out)
     if m:
         r.generated, r.distinct = int(m.group(1)), int(m.group(2))
